@@ -1,9 +1,9 @@
 (* runs the extracted channel model.  Input lines:
      case <id>
-     on <chan> <type> <state> <tag> <key> <uses>        patterns in token form
+     on <kind> <chan> <type> <state> <tag> <key> <uses>        kind m|s|c|e (message / start / complete / error handler); patterns in token form
      close <chan>
-     emit <mid> <type> <state> <tag> <model_tag> <key> <uses>     strings as dot-separated byte codes ("-" = empty)
-   Output: `case <id>: <mid> <chan> <chan> ...` for every emit *)
+     emit <kind> <mid> <type> <state> <tag> <model_tag> <key> <uses>     strings as dot-separated byte codes ("-" = empty)
+   Output: `case <id>: <kind> <mid> <chan> <chan> ...` for every emit *)
 open M_chan
 let rec nat_of_int n = if n <= 0 then O else S (nat_of_int (n - 1))
 let rec int_of_nat = function O -> 0 | S n -> 1 + int_of_nat n
@@ -28,18 +28,19 @@ let pat_of (s : string) : gtok list = if s = "-" then [] else List.map (tok_of '
 let () =
   let ic = open_in Sys.argv.(1) in
   let cid = ref "" in
-  let e = ref ([] : (nat * copts) list) in
+  let e = ref hub0 in
+  let kind_of = function "m" -> HMsg | "s" -> HStart | "c" -> HComplete | "e" -> HError | k -> failwith ("kind " ^ k) in
   (try while true do
      let l = input_line ic in
      match List.filter (fun x -> x <> "") (String.split_on_char ' ' l) with
-     | ["case"; id] -> cid := id; e := []
-     | ["on"; c; ty; st; tag; key; uses] ->
-         e := fst (cstep !e (COn (nat_of_int (int_of_string c), { o_type = pat_of ty; o_state = pat_of st; o_tag = pat_of tag; o_key = pat_of key; o_uses = pat_of uses })))
-     | ["close"; c] -> e := fst (cstep !e (CClose (nat_of_int (int_of_string c))))
-     | ["emit"; mid; ty; st; tag; mtag; key; uses] ->
+     | ["case"; id] -> cid := id; e := hub0
+     | ["on"; k; c; ty; st; tag; key; uses] ->
+         e := fst (hstep !e (HOn (kind_of k, nat_of_int (int_of_string c), { o_type = pat_of ty; o_state = pat_of st; o_tag = pat_of tag; o_key = pat_of key; o_uses = pat_of uses })))
+     | ["close"; c] -> e := fst (hstep !e (HClose (nat_of_int (int_of_string c))))
+     | ["emit"; k; mid; ty; st; tag; mtag; key; uses] ->
          let m = { m_type = bytes_of ty; m_state = bytes_of st; m_tag = bytes_of tag; m_model_tag = bytes_of mtag; m_key = bytes_of key; m_uses = bytes_of uses } in
-         let (_, d) = cstep !e (CEmit m) in
-         Printf.printf "case %s: %s %s\n" !cid mid (String.concat " " (List.sort compare (List.map (fun c -> string_of_int (int_of_nat c)) d)))
+         let (_, d) = hstep !e (HEmit (kind_of k, m)) in
+         Printf.printf "case %s: %s %s %s\n" !cid k mid (String.concat " " (List.sort compare (List.map (fun c -> string_of_int (int_of_nat c)) d)))
      | [] -> ()
      | _ -> failwith ("line " ^ l)
    done with End_of_file -> ())
